@@ -386,10 +386,21 @@ class SimLink:
 
 
 class _Resolver:
+    """every name resolves, to a fake address unique per name (so dial targets stay identifiable)"""
+    def __init__(self, net=None):
+        self.net = net
+
     def resolveHostName(self, receiver, hostName, portNumber=0, addressTypes=None,
                         transportSemantics="TCP"):
         receiver.resolutionBegan(None)
-        receiver.addressResolved(address.IPv4Address("TCP", hostName if _is_ip(hostName) else "10.9.9.9", portNumber))
+        if _is_ip(hostName) or self.net is None:
+            ip = hostName if _is_ip(hostName) else "10.9.9.9"
+        else:
+            names = self.net.names
+            if hostName not in names:
+                names[hostName] = "10.8.%d.%d" % (len(names) // 250, 1 + len(names) % 250)
+            ip = names[hostName]
+        receiver.addressResolved(address.IPv4Address("TCP", ip, portNumber))
         receiver.resolutionComplete()
         return receiver
 
@@ -404,7 +415,7 @@ def _is_ip(h):
 class NodeReactor:
     def __init__(self, world, name, addr):
         self.world, self.name, self.address = world, name, addr
-        self.nameResolver = _Resolver()
+        self.nameResolver = _Resolver(world.net)
         self.running = True
 
     def installNameResolver(self, r):
@@ -471,10 +482,16 @@ class SimNetwork:
         self.listened = []
         self.bufsize = 1 << 16
         self._seq = 0
+        self.names = {}      # hostname -> fake ip handed out by the resolver
 
     def next_seq(self):
         self._seq += 1
         return self._seq
+
+    def dial_targets(self, nodename=None):
+        """set of (hostname-or-ip, port) passed to connectTCP, fake addresses mapped back to names"""
+        back = {ip: name for name, ip in self.names.items()}
+        return {(back.get(h, h), p) for (n, h, p) in self.dialled if nodename is None or n == nodename}
 
 
 # ------------------------------------------------------------------ world
